@@ -91,7 +91,9 @@ def bind_mutation(ctx, pid, trace, label):
     # mutation 1: an issued id is rewritten to the id of another live entry (handle names another path)
     for i, ln in enumerate(lines):
         e = json.loads(ln)
-        if e.get("ev") in ("api", "issue") and e.get("op", "alloc") == "alloc" and len(e.get("tab", [])) >= 2:
+        # (not a READDIRPLUS issue: a dead handle there is what the known deviation F06b explains)
+        if e.get("ev") in ("api", "issue") and e.get("op", "alloc") == "alloc" and e.get("proc") != "READDIRPLUS" \
+                and len(e.get("tab", [])) >= 2:
             others = [t["i"] for t in e["tab"] if t["i"] != e["id"]]
             if not others:
                 continue
